@@ -1,3 +1,7 @@
+import Mathlib.Tactic.Ring
+import Mathlib.Tactic.Linarith
+import Mathlib.Tactic.FieldSimp
+import Mathlib.Algebra.Order.Field.Basic
 import IndicatifModel.Model.Format
 /-!
 # C15 — Human-readable formatters (integer parts)
@@ -27,6 +31,230 @@ theorem C15_round_nearest (d unit : Nat) (hu : 0 < unit) :
   constructor
   · omega
   · rw [Nat.mul_add]; omega
+
+
+/-! ### Decimal digits and digit grouping (`HumanCount`, integer part of `HumanFloatCount`) -/
+
+def digitVal (c : Char) : Nat := c.toNat - 48
+/-- the number a digit string stands for -/
+def toNat (ds : List Char) : Nat := ds.foldl (fun n c => n * 10 + digitVal c) 0
+
+theorem toNat_append_single (ds : List Char) (c : Char) : toNat (ds ++ [c]) = toNat ds * 10 + digitVal c := by
+  simp [toNat, List.foldl_append]
+
+theorem digitVal_digitChar (d : Nat) (h : d < 10) : digitVal (digitChar d) = d := by
+  have : d = 0 ∨ d = 1 ∨ d = 2 ∨ d = 3 ∨ d = 4 ∨ d = 5 ∨ d = 6 ∨ d = 7 ∨ d = 8 ∨ d = 9 := by omega
+  rcases this with h|h|h|h|h|h|h|h|h|h <;> subst h <;> decide
+
+/-- **`digits n` is the standard decimal representation of `n`**: it denotes `n` … -/
+theorem C15_digits_value (n : Nat) : toNat (digits n) = n := by
+  induction n using Nat.strongRecOn with
+  | _ n ih =>
+    rw [digits]
+    split
+    · rename_i h; simp [toNat, digitVal_digitChar n h]
+    · rename_i h
+      rw [toNat_append_single, ih (n / 10) (by omega), digitVal_digitChar _ (Nat.mod_lt _ (by decide))]
+      omega
+
+theorem digits_ne_nil (n : Nat) : digits n ≠ [] := by
+  rw [digits]; split <;> simp
+
+theorem digitChar_ne_comma (d : Nat) (h : d < 10) : digitChar d ≠ ',' := by
+  have : d = 0 ∨ d = 1 ∨ d = 2 ∨ d = 3 ∨ d = 4 ∨ d = 5 ∨ d = 6 ∨ d = 7 ∨ d = 8 ∨ d = 9 := by omega
+  rcases this with h|h|h|h|h|h|h|h|h|h <;> subst h <;> decide
+
+theorem digits_no_comma (n : Nat) : ∀ c ∈ digits n, c ≠ ',' := by
+  induction n using Nat.strongRecOn with
+  | _ n ih =>
+    rw [digits]
+    split
+    · rename_i h; intro c hc; simp at hc; subst hc; exact digitChar_ne_comma n h
+    · rename_i h
+      intro c hc
+      simp only [List.mem_append, List.mem_singleton] at hc
+      rcases hc with hc | rfl
+      · exact ih (n / 10) (by omega) c hc
+      · exact digitChar_ne_comma _ (Nat.mod_lt _ (by decide))
+
+/-- … and has no leading zero (except for `0` itself) -/
+theorem C15_digits_no_leading_zero (n : Nat) (hn : 0 < n) : (digits n).head? ≠ some '0' := by
+  induction n using Nat.strongRecOn with
+  | _ n ih =>
+    rw [digits]
+    split
+    · rename_i h
+      have : n = 1 ∨ n = 2 ∨ n = 3 ∨ n = 4 ∨ n = 5 ∨ n = 6 ∨ n = 7 ∨ n = 8 ∨ n = 9 := by omega
+      rcases this with h|h|h|h|h|h|h|h|h <;> subst h <;> decide
+    · rename_i h
+      have hne := digits_ne_nil (n / 10)
+      rw [List.head?_append_of_ne_nil _ hne]
+      exact ih (n / 10) (by omega) (by omega)
+
+theorem range_map_getD (ds : List Char) (d : Char) : (List.range ds.length).map (fun i => ds.getD i d) = ds := by
+  apply List.ext_getElem
+  · simp
+  · intro i h1 h2
+    simp only [List.length_map, List.length_range] at h1
+    simp [List.getD_eq_getElem?_getD, List.getElem?_eq_getElem h1]
+
+/-- **Grouping only inserts commas**: erasing them gives the digits back, in order -/
+theorem C15_group3_digits (ds : List Char) (h : ∀ c ∈ ds, c ≠ ',') : (group3 ds).filter (· ≠ ',') = ds := by
+  have hget : ∀ i, ds.getD i '0' ≠ ',' := by
+    intro i
+    by_cases hi : i < ds.length
+    · rw [List.getD_eq_getElem?_getD, List.getElem?_eq_getElem hi]; exact h _ (List.getElem_mem hi)
+    · rw [List.getD_eq_getElem?_getD, List.getElem?_eq_none (by omega)]; decide
+  have hpiece : ∀ (c : Char) (b : Bool), c ≠ ',' → List.filter (fun x => decide (x ≠ ',')) ([c] ++ if b = true then [','] else []) = [c] := by
+    intro c b hc
+    cases b <;> simp [hc]
+  simp only [group3, List.filter_flatMap]
+  have hfun : (fun idx => List.filter (fun x => decide (x ≠ ',')) ([ds.getD idx '0'] ++
+      if (decide (ds.length - idx - 1 > 0) && (ds.length - idx - 1) % 3 == 0) = true then [','] else [])) = (fun idx => [ds.getD idx '0']) := by
+    funext idx
+    exact hpiece _ _ (hget idx)
+  rw [hfun]
+  conv => rhs; rw [← range_map_getD ds '0']
+  generalize List.range ds.length = l
+  induction l with
+  | nil => rfl
+  | cons a l ih => simp only [List.flatMap_cons, List.map_cons, List.singleton_append, ih]
+
+/-- **`HumanCount`**: the digits of `n` (standard decimal, see above) with commas in between, nothing else;
+a comma follows a digit exactly when the number of digits after it is a positive multiple of three
+(this is the definition of `group3`, which `humanCount` is). -/
+theorem C15_count (n : Nat) : humanCount n = group3 (digits n) ∧ (humanCount n).filter (· ≠ ',') = digits n :=
+  ⟨rfl, C15_group3_digits _ (digits_no_comma n)⟩
+
+/-! ### Fixed-precision rounding (`HumanFloatCount`) -/
+
+/-- `roundHalfEven num den` is a nearest integer to `num / den`, and the even one on a tie -/
+theorem C15_round_half_even (num den : Nat) (hd : 0 < den) :
+    let q := roundHalfEven num den
+    2 * (q * den) ≤ 2 * num + den ∧ 2 * num ≤ 2 * (q * den) + den ∧ (2 * num + den = 2 * (q * den) ∨ 2 * num = 2 * (q * den) + den → q % 2 = 0) := by
+  intro q
+  have hdm := Nat.div_add_mod num den
+  have hlt := Nat.mod_lt num hd
+  have hmul : (num / den + 1) * den = num / den * den + den := by rw [Nat.add_mul, Nat.one_mul]
+  have hcomm : den * (num / den) = num / den * den := Nat.mul_comm _ _
+  simp only [q, roundHalfEven]
+  split
+  · rename_i hc
+    rw [hmul]
+    refine ⟨by omega, by omega, ?_⟩
+    intro hh
+    rcases hc with hc | ⟨hc1, hc2⟩
+    · omega
+    · omega
+  · rename_i hc
+    refine ⟨by omega, ?_, ?_⟩
+    · by_cases h2 : 2 * (num % den) > den
+      · exact absurd (Or.inl h2) hc
+      · omega
+    · intro hh
+      by_cases h2 : 2 * (num % den) = den
+      · by_cases h3 : num / den % 2 = 1
+        · exact absurd (Or.inr ⟨h2, h3⟩) hc
+        · omega
+      · omega
+
+theorem toNat_zeros (k : Nat) (ds : List Char) : toNat (List.replicate k '0' ++ ds) = toNat ds := by
+  induction k with
+  | zero => rfl
+  | succ k ih =>
+    have : toNat (List.replicate (k + 1) '0' ++ ds) = toNat (List.replicate k '0' ++ ds) := by
+      simp only [toNat, List.replicate_succ, List.cons_append, List.foldl_cons]
+      have h0 : (0 * 10 + digitVal '0') = 0 := by decide
+      rw [h0]
+    rw [this, ih]
+
+/-- **`HumanFloatCount`, finite values**: the integer and fraction digits are those of the value scaled by
+`10^prec` and rounded half to even (`scaledRound`, exact integer arithmetic), the fraction has exactly
+`prec` digits before trimming; the output is sign, grouped integer digits, and the fraction with its
+trailing zeros trimmed (omitted with its point when nothing is left). -/
+theorem C15_float_count (bits prec : Nat) (neg : Bool) (mant : Nat) (exp : Int) (h : decodeF64 bits = .fin neg mant exp) :
+    let ip := (fixedParts mant exp prec).1
+    let fp := (fixedParts mant exp prec).2
+    toNat (ip ++ fp) = scaledRound mant exp prec ∧ fp.length = prec ∧ ip ≠ [] ∧
+    humanFloatCount bits prec = (if neg then ['-'] else []) ++ group3 ip ++ (if trimZeros fp = [] then [] else '.' :: trimZeros fp) := by
+  intro ip fp
+  have hlen : prec + 1 ≤ (padLeftZeros (prec + 1) (digits (scaledRound mant exp prec))).length := by
+    simp only [padLeftZeros, List.length_append, List.length_replicate]; omega
+  refine ⟨?_, ?_, ?_, ?_⟩
+  · simp only [ip, fp, fixedParts, List.take_append_drop, padLeftZeros]
+    rw [toNat_zeros, C15_digits_value]
+  · simp only [fp, fixedParts, List.length_drop]; omega
+  · simp only [ip, fixedParts]
+    intro h0
+    have := congrArg List.length h0
+    simp only [List.length_take, List.length_nil] at this
+    omega
+  · simp only [humanFloatCount, h, ip, fp]
+
+/-- NaN and the infinities pass through unchanged (no digit grouping is applied to them) -/
+theorem C15_float_count_nonfinite (bits prec : Nat) :
+    (decodeF64 bits = .nan → humanFloatCount bits prec = "NaN".toList) ∧
+    (∀ neg, decodeF64 bits = .inf neg → humanFloatCount bits prec = (if neg then ['-'] else []) ++ "inf".toList) := by
+  constructor
+  · intro h; simp only [humanFloatCount, h]
+  · intro neg h; simp only [humanFloatCount, h]
+
+/-! ### Largest fitting prefix (`HumanBytes`, `BinaryBytes`, `DecimalBytes`) -/
+section pfx
+variable {α : Type} [Field α] [LinearOrder α] [IsStrictOrderedRing α]
+
+theorem prefixLoop_spec (kilo : α) (hk : 1 < kilo) : ∀ (fuel : Nat) (a : α) (p : Nat), 0 ≤ a →
+    let r := prefixLoopG (fun x y => decide (y ≤ x)) (· / ·) kilo fuel a p
+    r.1 * kilo ^ (r.2 - p) = a ∧ p ≤ r.2 ∧ r.2 ≤ p + fuel ∧ 0 ≤ r.1 ∧
+    (r.2 < 8 → r.2 < p + fuel → r.1 < kilo) ∧ (p < r.2 → 1 ≤ r.1) := by
+  intro fuel
+  induction fuel with
+  | zero => intro a p ha; simp [prefixLoopG, ha]
+  | succ fuel ih =>
+    intro a p ha
+    simp only [prefixLoopG]
+    by_cases hc : (decide (kilo ≤ a) && decide (p < 8)) = true
+    · simp only [hc, if_true]
+      have hka : kilo ≤ a := by simp only [Bool.and_eq_true, decide_eq_true_eq] at hc; exact hc.1
+      have hkpos : 0 < kilo := by linarith
+      have hdiv : 0 ≤ a / kilo := div_nonneg ha (le_of_lt hkpos)
+      obtain ⟨h1, h2, h3, h4, h5, h6⟩ := ih (a / kilo) (p + 1) hdiv
+      refine ⟨?_, by omega, by omega, h4, ?_, ?_⟩
+      · have hsub : (prefixLoopG (fun x y => decide (y ≤ x)) (· / ·) kilo fuel (a / kilo) (p + 1)).2 - p =
+            ((prefixLoopG (fun x y => decide (y ≤ x)) (· / ·) kilo fuel (a / kilo) (p + 1)).2 - (p + 1)) + 1 := by omega
+        rw [hsub, pow_succ, ← mul_assoc, h1]
+        field_simp
+      · intro hlt8 hlt
+        exact h5 hlt8 (by omega)
+      · intro _
+        by_cases hp : p + 1 < (prefixLoopG (fun x y => decide (y ≤ x)) (· / ·) kilo fuel (a / kilo) (p + 1)).2
+        · exact h6 hp
+        · -- no further division: the result is a / kilo ≥ 1
+          have heq : (prefixLoopG (fun x y => decide (y ≤ x)) (· / ·) kilo fuel (a / kilo) (p + 1)).2 = p + 1 := by omega
+          rw [heq] at h1
+          simp only [Nat.sub_self, pow_zero, mul_one] at h1
+          rw [h1, le_div_iff₀ hkpos]
+          linarith
+    · have hc' : (decide (kilo ≤ a) && decide (p < 8)) = false := by simpa using hc
+      simp only [hc', Bool.false_eq_true, if_false, Nat.sub_self, pow_zero, mul_one, Nat.le_refl, Nat.lt_irrefl, false_imp_iff, and_true, true_and]
+      refine ⟨by omega, ha, ?_⟩
+      intro h8 _
+      simp only [Bool.and_eq_false_iff, decide_eq_false_iff_not, not_le] at hc'
+      rcases hc' with h | h
+      · exact h
+      · omega
+
+/-- **Largest fitting prefix.** For a non-negative amount `x` and `kilo > 1` (1000 or 1024), the loop of
+`number_prefix` returns a value `a` and a prefix index `p ≤ 8` with `a · kilo^p = x`; `p` is the largest
+that fits: `a ≥ 1` whenever a prefix is used, and `a < kilo` unless the last prefix (`Y`/`Yi`) is reached. -/
+theorem C15_bytes_prefix (kilo x : α) (hk : 1 < kilo) (hx : 0 ≤ x) :
+    let r := prefixLoopG (fun a b => decide (b ≤ a)) (· / ·) kilo 8 x 0
+    r.1 * kilo ^ r.2 = x ∧ r.2 ≤ 8 ∧ (r.2 < 8 → r.1 < kilo) ∧ (0 < r.2 → 1 ≤ r.1) := by
+  intro r
+  obtain ⟨h1, _, h3, _, h5, h6⟩ := prefixLoop_spec kilo hk 8 x 0 hx
+  refine ⟨by simpa using h1, by omega, fun h => h5 h (by omega), h6⟩
+
+end pfx
 
 /-- non-vacuity / the documented switch points -/
 example : humanDurationCount (89 * NS + 499999999) = (5, 89) ∧ humanDurationCount (89 * NS + 500000000) = (4, 2) ∧
